@@ -8,7 +8,11 @@ EXTENDS Align
 CONSTANTS Alphabet,     \* set of letters (small positive integers)
           MaxLen,       \* bound on Len(a), Len(b)
           BruteLen,     \* brute force (GotohIsBrute) for pairs up to this length
-          FreeGaps      \* TRUE: deletion and insertion gap scores vary independently
+          FreeGaps,     \* TRUE: deletion and insertion gap scores vary independently
+          GapVals       \* the per-character gap scores of the family ({-2, -1, 0}: the domain of Local in C08 / C10; C09 also with positive ones)
+
+MCGapNeg == {-2, -1, 0}
+MCGapAny == {-1, 0, 1, 2}
 
 VARIABLES ph, p, a, b, r
 vars == <<ph, p, a, b, r>>
@@ -20,11 +24,11 @@ SeqsUpTo(S, n) == IF n = 0 THEN { <<>> }
 Strings == SeqsUpTo(Alphabet, MaxLen)
 
 \* the matrix family: match, mismatch above / below the diagonal (asymmetric variants), per-character
-\* gap score of a deletion / insertion, gap-open.  All gap scores <= 0: the domain of Local.
+\* gap score of a deletion / insertion (GapVals), gap-open.
 LevP   == [mt |-> 0, up |-> -1, lo |-> -1, gd |-> -1, gi |-> -1, op |-> 0]
 Family == { [mt |-> mt, up |-> up, lo |-> lo, gd |-> gd, gi |-> gi, op |-> op] :
-              mt \in {1, 2}, up \in {-1, 0}, lo \in {-1, 0}, gd \in {-2, -1, 0},
-              gi \in {-2, -1, 0}, op \in {-3, -2, -1, 0} }
+              mt \in {1, 2}, up \in {-1, 0}, lo \in {-1, 0}, gd \in GapVals,
+              gi \in GapVals, op \in {-3, -2, -1, 0} }
 Params == { q \in Family : FreeGaps \/ q.gd = q.gi } \cup { LevP }
 
 Keys == { <<x, y>> : x \in Alphabet \cup {GAP}, y \in Alphabet \cup {GAP} }
@@ -71,6 +75,10 @@ GotohIsBrute  == (Len(a) <= BruteLen /\ Len(b) <= BruteLen) =>
 ZeroOpenOptimal == p.op = 0 => (r.g.score = r.og /\ r.l.score = r.ol)
 LevIsEdit     == p = LevP => (-r.g.score = EditDistance(a, b) /\ -r.og = EditDistance(a, b) /\ IsLevenshteinOver(M, Alphabet \cup {GAP}))
 SwapSymmetric == SymP(p) => (Symmetric(M) /\ Opt(b, a, M) = r.og /\ LocalOpt(b, a, M) = r.ol)
+
+\* C09 with gap scores of either sign (MC_Align_C09_pos): the same statements for the zero-gap-open members of the family
+GotohIsBrute0 == p.op = 0 => GotohIsBrute
+NeverAbove0   == p.op = 0 => NeverAbove
 
 (* C10: refuted by TLC; MC_Align_C10.cfg does not assert it - the state dump carries r for every case
    and the orchestrator enumerates Bad = { (a, b, p) : p.op # 0 /\ (r.g.score < r.og \/ r.l.score < r.ol) } *)
